@@ -166,6 +166,10 @@ func (mltp MaskedLinearTransformationProtocol) GenShare(skIn, skOut *rlwe.Secret
 		return fmt.Errorf("cannot GenShare: crs level must be equal to ShareToEncShare")
 	}
 
+	if ct.LogSlots() > mltp.s2e.params.LogMaxSlots() {
+		return fmt.Errorf("cannot GenShare: the ciphertext has 2^%d slots but the output parameters support at most 2^%d", ct.LogSlots(), mltp.s2e.params.LogMaxSlots())
+	}
+
 	if transform != nil {
 
 		if transform.Decode && !ct.IsBatched {
@@ -237,6 +241,10 @@ func (mltp MaskedLinearTransformationProtocol) Transform(ct *rlwe.Ciphertext, tr
 
 	if maxLevel != share.ShareToEncShare.Value.Level() {
 		return fmt.Errorf("cannot Transform: crs level and s2e level must be the same")
+	}
+
+	if ct.LogSlots() > mltp.s2e.params.LogMaxSlots() {
+		return fmt.Errorf("cannot Transform: the ciphertext has 2^%d slots but the output parameters support at most 2^%d", ct.LogSlots(), mltp.s2e.params.LogMaxSlots())
 	}
 
 	if transform != nil {
